@@ -25,7 +25,7 @@ ASSUMPTIONS = [
     "restricts clause (b) to the checksummed framings)",
 ]
 MUST = ["reassembled_while_another_caller_queued", "reassembled_after_corrupt_answer", "reassembled_rtu", "reassembled_tcp", "reassembled_aa55", "partial_branch", "leftover_cleared", "late_second_piece",
-        "wrong_second_piece_refused", "foreign_datagram_between_fragments", "both_pieces_delayed", "two_objects_fragmented", "other_timeouts"]
+        "wrong_second_piece_refused", "foreign_datagram_between_fragments", "both_pieces_delayed", "two_objects_fragmented", "other_timeouts", "aa55_checksum_wraps"]
 EXHAUSTIVE = {"quick": False, "thorough": True}
 EPS = 1e-6
 KINDS = ["exact", "plus1", "minus1", "corrupt", "crcswap", "other_answer", "other_remainder", "none", "plus1_then_exact", "junk_then_exact"]
@@ -44,6 +44,7 @@ class FragPeer(ScriptedPeer):
         super().__init__(engine.HOST, sc["framing"], [], sc["T"], after="now",
                          payload_fn=aa55_payload if sc.get("payload") == "aa55" else default_payload,
                          aa55_payload=(b"\xaa\x55" * 128)[:sc.get("aa55_len", 40)] if sc.get("payload") == "aa55" else
+                         b"\xff" * sc.get("aa55_len", 40) if sc.get("payload") == "ff" else
                          bytes((i * 7 + 1) & 0xFF for i in range(sc.get("aa55_len", 40))))
         self.sc = sc
         self.v1 = None
@@ -326,6 +327,13 @@ def run_shard(spec):
                     sc = scenario(f, spec["ka"], T, 2, count, k, "exact", delay, "now", spec["aa55_len"])
                     sc["first_delay"] = d1
                     run_case(sc, part)
+            if f == "aa55" and spec["aa55_len"] >= 250 and (k in (HEADER[f], L - 1) or k % 37 == 0):
+                # a payload of 0xFF bytes: the frame's byte sum exceeds 16 bits (the checksum wraps around)
+                for delay in (0.0, 0.5):
+                    sc = scenario(f, spec["ka"], T, 2, count, k, "exact", delay, "now", spec["aa55_len"])
+                    sc["payload"] = "ff"
+                    run_case(sc, part)
+                    part.count("aa55_checksum_wraps")
             if k % 2 == 1 or k in (HEADER[f], L - 2):
                 # payload made of AA 55 pairs: the remainder itself starts with the frame-header bytes
                 for delay in (0.0, 0.5):
